@@ -119,7 +119,8 @@ fn park(name: &'static str) {
 impl Ctl {
     fn settle(&self, id: usize) -> bool {
         let mut g = self.mu.lock().unwrap();
-        let deadline = Instant::now() + Duration::from_secs(20);
+        // generous and load-independent: a grant is one file-system call; only a genuinely stuck contender gets here
+        let deadline = Instant::now() + Duration::from_secs(180);
         while g[id].parked.is_none() && !g[id].done {
             let (gg, t) = self.cv.wait_timeout(g, Duration::from_millis(200)).unwrap();
             g = gg;
